@@ -49,7 +49,7 @@ CLAIMED = {
          "Trusted: bun renders arguments into the statement text; the PostgreSQL lexer; the harness fold; for (d) the harness's model of what the insert trigger writes into moves (one row per posting side, running volumes, insertion date = log date, effective date = transaction timestamp); for (f) the harness's model of the revision rows the history triggers keep and the mini engine's reading of joins, bounds, ORDER BY, LIMIT and DISTINCT ON. NOT covered: 0-init-schema.sql behaviour.",
          "DESIGN.md 5/C04 and 6"),
  "C15": ("LOCKSIM", "exploration",
-         "stateful model-based property testing of the real DefaultLocker inside a synctest bubble; generated action lists incl. cancel-at-the-moment-of-grant; invariants observed from outside",
+         "stateful model-based property testing of the real DefaultLocker inside a synctest bubble; generated action lists incl. cancel-at-the-moment-of-grant and requests naming no account; invariants observed from outside; a run that does not come back is a hang of the manager",
          "Generated request/release/cancel/grant-race sequences run on the real locker; after every step exclusion, no-grantable-waiter-left, cancelled-requests-return hold, and at the end a probe proves that nothing stays locked. Each list runs 6 times because Go's select is random when both outcomes are ready.",
          "Trusted: synctest.Wait gives exact quiescence; the only delay injected is at the verifhook point lock.queued.",
          "DESIGN.md 5/C15"),
@@ -76,7 +76,7 @@ CLAIMED = {
          "Trusted: model store in place of PostgreSQL (reads see exactly the committed batches); interleavings at gate granularity (store calls, monitor calls, verifhook points); the harness fold.",
          "DESIGN.md 5/C02"),
  "C05": ("ENGINE-SIM", "exploration",
-         "stateful property-based testing with generated schedules, batch sizes and crash/restart points; history invariant (ids, hash recomputation incl. read-back form, tx ids)",
+         "stateful property-based testing with generated schedules, batch sizes, crash/restart points and a ticking clock; history invariant (ids, hash recomputation incl. read-back form, tx ids); a shared-bucket family (two ledgers of one bucket, chain head and insertion through the real SQL store, restarts: each ledger's log is a chain of its own)",
          "The sequence of logs handed to the store, across commander generations, must carry ids 0..n-1, hashes that recompute from stored content and previous hash, and transaction ids 0,1,2.. in log order. Exploration of generated histories/schedules/crash points.",
          "Trusted: model store; crash = goroutines stop at their next gate and un-inserted batches vanish; storeform emulation for the read-back recomputation.",
          "DESIGN.md 5/C05"),
@@ -86,7 +86,7 @@ CLAIMED = {
          "Trusted: model store; the crash model (see DESIGN.md 4.2); attribution of entries to requests through request-chosen tags.",
          "DESIGN.md 5/C06"),
  "C07": ("ENGINE-SIM", "exploration",
-         "stateful property-based testing: duplicated keyed requests x schedules (incl. one request held back while the others run) x restart x failing store reads x cancellations (incl. at the moment of hand-off); invariant: <=1 entry per key, equal outcomes; a shared-bucket family (two ledgers, the key look-up through the real ledgerstore SQL over a recording database: a key is a ledger's own); plus a parallel stress family (real goroutines released together on one key; the schedule is not owned there, the oracle is an invariant)",
+         "stateful property-based testing: duplicated keyed requests x schedules (incl. one request held back while the others run) x restart x failing store reads x cancellations (incl. at the moment of hand-off); invariant: <=1 entry per key, equal outcomes; a look-up fault family (the key look-up through the real store fails with a generated SQLSTATE); a shared-bucket family (two ledgers, the key look-up through the real ledgerstore SQL over a recording database: a key is a ledger's own); plus a parallel stress family (real goroutines released together on one key; the schedule is not owned there, the oracle is an invariant)",
          "Generated groups of identical keyed requests (all write kinds) are issued sequentially, racing and across a crash; at most one entry may carry the key and every success must return it.",
          "Trusted: model store; read-back of the keyed log through the storeform emulation.",
          "DESIGN.md 5/C07"),
@@ -96,7 +96,7 @@ CLAIMED = {
          "Trusted: model store (reverted flag served from the harness fold; the SQL projection of the flag is outside, see C04).",
          "DESIGN.md 5/C10"),
  "C11": ("ENGINE-SIM", "exploration",
-         "stateful property-based testing: same-reference creates (incl. previews and bursts without a common account lock) x reverts of the holder x schedules x competitor outcome x faults; invariant over persisted history and error classes; plus a parallel stress family (real goroutines released together on one reference against a real Commander: the reservation has no blocking point a scheduler could own; invariant oracle)",
+         "stateful property-based testing: same-reference creates (incl. previews and bursts without a common account lock) x reverts of the holder x schedules x competitor outcome x faults; invariant over persisted history and error classes; a look-up fault family (a committed reference comes again while the real store's look-up fails with a generated SQLSTATE: its classification of driver errors is in the loop); plus a parallel stress family (real goroutines released together on one reference against a real Commander: the reservation has no blocking point a scheduler could own; invariant oracle)",
          "Generated groups of creates sharing a reference race each other and the persistence of competitors; at most one committed transaction per reference, refusals are CONFLICT, no spurious CONFLICT.",
          "Trusted: model store (reference lookup sees committed batches only).",
          "DESIGN.md 5/C11"),
